@@ -804,6 +804,10 @@ func (c *SpecCtx) call(n *ECall) (Val, types.Type) {
 			return B(x.heap(c.cur, "G$invoked$"+id.Name, "Bool")), tBool
 		}
 		return IfaceV{x.heap(c.cur, "G$cbresult$"+id.Name+".tag", "Int"), x.heap(c.cur, "G$cbresult$"+id.Name+".ref", "Int")}, types.Universe.Lookup("error").Type()
+	case "sent": // sent(ch): number of values sent on a channel so far (ghost log)
+		v, _ := arg(0)
+		h := x.heap(c.cur, "G$sent", "(Array Int Int)")
+		return I(sx("select", h, v.(Sc).T)), tInt
 	case "sameheap": // sameheap("T.f"): the whole field heap is unchanged since the old state
 		str, ok := n.Args[0].(*EStr)
 		if !ok || c.old == nil {
